@@ -379,6 +379,25 @@ def run(ctx):
     de = [i for i in prog.impls if i.get('self_ty') == NA and i.get('trait', '').endswith('Deserialize')]
     oks = bool(ser) and bool(de) and all(i.get('derived') for i in ser + de)
     ctx.ob('SERDE', 'derived-both-ways', oks, 'src/address.rs', 'Serialize and Deserialize for NetworkAddress are both derive-generated (same field list %s): %s' % (prog.adt_fields(NA), oks))
+    # ... and field for field: the derived Deserialize builds the NetworkAddress aggregate itself from the decoded fields. A
+    # `#[serde(try_from / from / into)]` detour (still "derived") re-validates or re-derives the value through hand-written
+    # code, so a value the library serialised can be refused or changed when it is read back.
+    de_bodies = [b for b in prog.bodies.containing("Deserialize<'de> for address::NetworkAddress") if "Deserialize<'de> for address::NetworkAddress>" in b.id]
+    se_bodies = [b for b in prog.bodies.containing('Serialize for address::NetworkAddress') if 'Serialize for address::NetworkAddress>' in b.id and 'Deserialize' not in b.id]
+    builds = any(r.get('adt') == NA for b in de_bodies for r in b.aggregates())
+    detour = None
+    for b in de_bodies + se_bodies:
+        for cs in b.calls():
+            if re.search(r'convert::(TryFrom|TryInto|From|Into)(<.*>)?>?::(try_from|try_into|from|into)$', cs.declared) and \
+                    (NA in cs.callee or NA in (cs.fa or '') or any(NA in (L.operand_ty(b, a) or '') for a in cs.args)):
+                detour = cs
+            elif cs.local and prog.has_body(cs.callee) and not prog.bodies[cs.callee].derived and cs.callee.startswith('address::') \
+                    and 'serde' not in cs.callee and '__' not in cs.callee:
+                detour = cs
+    ctx.ob('SERDE', 'field-for-field', bool(de_bodies) and builds and detour is None, (detour.where() if detour else 'src/address.rs'),
+           ('the derived Deserialize (%d generated bodies) builds NetworkAddress directly from the decoded fields' % len(de_bodies)) if (builds and detour is None) else
+           ('deserialisation of NetworkAddress goes through %s: a hand-written conversion / validation sits between the stored fields and the value, so the '
+            'library may refuse or alter what it serialised itself' % (detour.short() if detour else 'something other than the field-by-field constructor')))
 
     # ---- 4. parsers do not panic
     for b in [fs, fw, enc, disp] + [prog.bodies[i] for i in prog.family(fs.id) if i != fs.id]:
